@@ -263,6 +263,9 @@ fn run_case(c: &Case) -> CaseResult {
     let mut table = RoutingTable::new(Key::verif_from_bytes(local_key, local_peer));
     let mut full_bucket_seen = false;
     let mut replaced_seen = false;
+    // the harness's own record of which stored peers are connected: only a connection-state change (add with a type,
+    // connection established, disconnect) alters it — a dial failure does not disconnect a peer
+    let mut model_connected: BTreeMap<Vec<u8>, (PeerId, usize)> = BTreeMap::new();
 
     for (step, op) in c.ops.iter().enumerate() {
         let before: Dump = table.verif_dump();
@@ -343,6 +346,40 @@ fn run_case(c: &Case) -> CaseResult {
         }
         let after: Dump = table.verif_dump();
         check_invariants(&after, &local_key, step)?;
+        // update the connectedness model from the operation itself
+        match op {
+            Op::Add { peer, addrs, conn } if *addrs > 0 => {
+                let pid = p.peers[resolve(peer, c.anchor) as usize];
+                if let Some(e) = after.iter().find(|e| e.1 == pid && !e.4.is_empty()) {
+                    if matches!(conn_of(*conn), ConnectionType::Connected) {
+                        model_connected.insert(pid.to_bytes(), (pid, e.0));
+                    } else {
+                        model_connected.remove(&pid.to_bytes());
+                    }
+                }
+            }
+            Op::Established { peer, .. } => {
+                let pid = p.peers[resolve(peer, c.anchor) as usize];
+                if let Some(e) = after.iter().find(|e| e.1 == pid && !e.4.is_empty()) {
+                    model_connected.insert(pid.to_bytes(), (pid, e.0));
+                }
+            }
+            Op::SetConn { peer, conn } => {
+                let pid = p.peers[resolve(peer, c.anchor) as usize];
+                if let Some(e) = after.iter().find(|e| e.1 == pid) {
+                    if matches!(conn_of(*conn), ConnectionType::Connected) && !e.4.is_empty() {
+                        model_connected.insert(pid.to_bytes(), (pid, e.0));
+                    } else {
+                        model_connected.remove(&pid.to_bytes());
+                    }
+                }
+            }
+            _ => {}
+        }
+        for (pid, bucket) in model_connected.values() {
+            let still = after.iter().any(|e| e.1 == *pid && e.0 == *bucket && !e.4.is_empty());
+            ensure!(still, "C14/connected-peer-displaced", "step {step}: connected peer {pid} (bucket {bucket}) is gone after {:?}", op);
+        }
         for (pid, bucket) in protected {
             if Some(pid) == touched {
                 continue;
